@@ -485,9 +485,10 @@ fn c13_shard(ctx: &Ctx, out: &mut ShardOut) {
         crate::seq::run_map_case(c, or).map_err(|f| CaseFail { prop: "C13".into(), msg: format!("[{}] step {}: {}", f.prop, f.step, f.msg) })?;
         Ok(CaseInfo { nontrivial: false, classes: vec![("sequential_cases_with_retain", (n_ret > 0) as u64)], evaluations: 1, sub_hashes: vec![] })
     });
+    super::seqchecks::run_big(ctx, out, "C13", or, 5);
 }
 fn c13_replay(sub: &str, case: &Value) -> Result<(), CaseFail> {
-    if sub == "seq" {
+    if sub == "seq" || sub == "map" {
         let c: crate::model::SeqCase = serde_json::from_value(case.clone()).map_err(|e| CaseFail { prop: "C13".into(), msg: format!("bad replay file: {}", e) })?;
         return crate::seq::run_map_case(&c, crate::seq::Oracles { returns: true, ..Default::default() }).map(|_| ()).map_err(|f| CaseFail { prop: "C13".into(), msg: f.msg });
     }
